@@ -14,7 +14,8 @@ Inductive sop :=
 | SLookup (i : N) (w : N) (j : N)                    (* GetTransaction(hash tbl[i]): w 0 none, 1 pending, 2 executed; = tbl[j] *)
 | SExists (i : N) (r : bool)                         (* IsExisted(hash tbl[i]) *)
 | SEvicted (i : N) (r : bool)                        (* evicted-cache probe *)
-| SLess (i j : N) (r : N).                           (* Transactions{tbl[i],tbl[j]}.Less(0,1): 0 false, 1 true, 2 panic *)
+| SLess (i j : N) (r : N)                            (* Transactions{tbl[i],tbl[j]}.Less(0,1): 0 false, 1 true, 2 panic *)
+| STick.                                             (* one growRing tick of the pending container *)
 
 Definition T (h s n r : N) : tx := mkTx h s n r.
 
@@ -84,6 +85,7 @@ Definition chk_step (f : flags) (lim cap : N) (tbl : list tx) (s : pool) (o : so
   | SLess i j r =>
     let a := nth_tx tbl i in let b := nth_tx tbl j in
     ((if less_panics f a b then r =? 2 else if less f a b then r =? 1 else r =? 0), s)
+  | STick => (true, s)   (* handled by chk_steps on the timed state *)
   end.
 
 (* after each step the implementation's GetReceived (if recorded) must be the model's pending list;
@@ -91,17 +93,23 @@ Definition chk_step (f : flags) (lim cap : N) (tbl : list tx) (s : pool) (o : so
 Definition invb (s : pool) : bool :=
   nodupb (hashes (received s)) && forallb (fun h => negb (memN h (exec_keys s))) (hashes (received s)).
 
-Fixpoint chk_steps (f : flags) (lim cap : N) (tbl : list tx) (s : pool)
+(* the evaluator runs the timed pool of Model.v: pool methods through [step]'s components + resync of
+   the ring counters (= tstep (TOp _)), ticks through tstep TTick *)
+Fixpoint chk_steps (f : flags) (lim cap : N) (tbl : list tx) (ts : tpool)
          (steps : list (sop * option (list N))) : bool :=
   match steps with
   | [] => true
   | (o, recv) :: r =>
-    let '(ok, s') := chk_step f lim cap tbl s o in
-    ok && invb s'
-    && match recv with None => true | Some is => txs_eqb (received s') (sel tbl is) end
-    && chk_steps f lim cap tbl s' r
+    let '(ok, ts') :=
+      match o with
+      | STick => (true, tstep lim ts TTick)
+      | _ => let '(ok, s') := chk_step f lim cap tbl (tp ts) o in (ok, mkT s' (resync (rings ts) s'))
+      end in
+    ok && invb (tp ts')
+    && match recv with None => true | Some is => txs_eqb (received (tp ts')) (sel tbl is) end
+    && chk_steps f lim cap tbl ts' r
   end.
 
 Definition check (c : (bool * bool * bool * bool) * (N * N) * list tx * list (sop * option (list N))) : bool :=
   let '((f16, f18, f21, f23), (lim, cap), tbl, steps) := c in
-  chk_steps (mkFlags f16 f18 f21 f23) lim cap tbl empty steps.
+  chk_steps (mkFlags f16 f18 f21 f23) lim cap tbl (mkT empty []) steps.
